@@ -1,7 +1,8 @@
 """C12  Stages compose without interference and clones equal their template."""
 import itertools, copy
 import numpy as np
-from .. import program as P, explore, multi, hist
+from .. import program as P, explore, multi, hist, core, nlp as NL
+from ..common import seed as get_seed
 from . import _trans
 
 ID = "C12"
@@ -327,6 +328,46 @@ def run_hist(case):
                 sample=dict(pattern=pat, names=spec["names"], via=spec["via"]))
 
 
+def stage_readback(res, tags):
+    """numeric read-back of a multi-stage solution: sol(stage).sample / .value of every stage = that stage's own labelled
+    values at the solver's decision vector (no other stage's), one time stamp per entry (C07's clause for sol(stage))"""
+    from rockit.direct_method import OptiSolWrapper
+    from rockit.solution import OcpSolution
+    from .c07 import FakeSol
+    import casadi as ca
+    nlp, m = res.nlp, res.m
+    w = NL.alphabet(nlp.nx + nlp.n_extra, seed=get_seed(), full=True)[0]
+    w, ex = w[:nlp.nx], w[nlp.nx:]
+    if nlp.n_extra:
+        return []          # inactive symbols: the solver-free solution object cannot place them
+    q = nlp.read(w, extra=ex)
+    vios = []
+    try:
+        sol = OcpSolution(OptiSolWrapper(nlp.opti, FakeSol(nlp, w)), m.ocp)
+        for i, r in enumerate(m.reals):
+            ss = sol(r.st)
+            x = ca.vertcat(*[ca.vec(r.sym[name]) for name, _ in P.state_shapes(r.d)])
+            for grid, kt, kx in (("control", "tc_time", "X"), ("integrator", "ti", "Xi")):
+                ts, xs = ss.sample(x, grid=grid)
+                want_t = np.asarray(q["s%d.%s" % (i, kt)], dtype=float).reshape(-1)
+                want_x = np.asarray(q["s%d.%s" % (i, kx)], dtype=float)
+                want_x = want_x.reshape(x.numel(), -1, order="F").T if want_x.ndim else want_x
+                got_t = np.asarray(ts, dtype=float).reshape(-1)
+                got_x = np.asarray(xs, dtype=float).reshape(len(got_t), -1)
+                if got_t.shape != want_t.shape or not np.allclose(got_t, want_t, atol=1e-9) or got_x.shape != want_x.reshape(len(want_t), -1).shape or not np.allclose(got_x, want_x.reshape(len(want_t), -1), atol=1e-9):
+                    vios.append(dict(sig="value:sol(stage).sample:%s" % grid, tags=tags + ["sol_of_stage"], detail="stage %d: sol(stage).sample(x, grid=%s) = %s at %s, the stage's own labelled values are %s at %s" % (i, grid, np.round(got_x.reshape(-1)[:6], 6), np.round(got_t[:4], 6), np.round(want_x.reshape(-1)[:6], 6), np.round(want_t[:4], 6))))
+            for name, sym in (("T", r.st.T), ("t0", r.st.t0), ("tf", r.st.tf)):
+                got = float(np.asarray(ss.value(sym), dtype=float).reshape(-1)[0])
+                want = float(np.asarray(q["s%d.%s" % (i, name)], dtype=float).reshape(-1)[0])
+                if abs(got - want) > 1e-9:
+                    vios.append(dict(sig="value:sol(stage).value:%s" % name, tags=tags + ["sol_of_stage"], detail="stage %d: sol(stage).value(%s) = %g, labelled %g" % (i, name, got, want)))
+    except Exception as e:
+        import sys
+        fr = core.rockit_frame(sys.exc_info()[2])
+        vios.append(dict(sig="exception:sol(stage):%s" % (fr or type(e).__name__), tags=tags + ["sol_of_stage"], detail="%s: %s" % (type(e).__name__, str(e)[:200])))
+    return vios
+
+
 def run_case(case):
     if case.get("kind") == "hist":
         return run_hist(case)
@@ -362,6 +403,7 @@ def run_case(case):
     if res.exception is not None:
         vios.append(dict(sig="exception:%s" % (res.exception["frame"] or res.exception["type"]), tags=tags, detail="%s: %s" % (res.exception["type"], res.exception["msg"])))
     else:
+        vios += stage_readback(res, tags)
         grouped = {}
         for m in res.mismatches:
             base = ":".join(m["origin"].split(":")[:3]) if m["origin"].startswith("s") else ":".join(m["origin"].split(":")[:2])
